@@ -3,6 +3,7 @@ package main
 import (
 	"fmt"
 	"go/token"
+	"go/types"
 	"strings"
 
 	"golang.org/x/tools/go/ssa"
@@ -93,8 +94,13 @@ func checkURLProcEscapeMode(p *Program, r *Report, rule string) *urlProcTables {
 		if f != nil {
 			for _, ret := range Returns(f) {
 				if c, isC := ret.Results[0].(*ssa.Call); isC && staticCallee(c.Common()) == t.Fn {
-					if b, isB := constBool(c.Common().Args[0]); isB && b == w.norm {
-						if sc, ok2 := isCallTo(c.Common().Args[1], pkgUtil+".Stringify"); ok2 && sc.Common().Args[0] == ssa.Value(f.Params[0]) {
+					// the mode is the constant whose table was checked above (escape mode for QueryEscapeURL, normalise mode for NormalizeURL)
+					wantMode := t.ModeEscape
+					if w.norm {
+						wantMode = t.ModeNorm
+					}
+					if c.Common().Args[t.ModeIdx] == ssa.Value(wantMode) {
+						if sc, ok2 := isCallTo(c.Common().Args[t.StrIdx], pkgUtil+".Stringify"); ok2 && sc.Common().Args[0] == ssa.Value(f.Params[0]) {
 							ok = true
 						}
 					}
@@ -216,7 +222,7 @@ func runC13(p *Program, r *Report) {
 			r.Viol("C13.R1", b.cn+"#prefix-guard", site.Pos, "the construction is not dominated by a prefix predicate on the format/base: "+site.Cond.String(), "")
 		} else {
 			L := NewLang()
-			L.Props = map[string]bool{"nil(err)": true}
+			L.Props = map[string]bool{substErrProp(formatter): true}
 			if err := registerSumm(L, s, site.Cond); err != nil {
 				r.Undec("C13.R1", b.cn+"#prefix-guard", site.Pos, err.Error())
 			} else {
@@ -237,8 +243,7 @@ func runC13(p *Program, r *Report) {
 			if site.Store.Block().Dominates(ret.Block()) {
 				continue
 			}
-			k, ok := ret.Results[0].(*ssa.Const)
-			r.Check(ok && k.Value == nil, "C13.R1", fmt.Sprintf("%s#failure-return%d", b.cn, i), p.Pos(ret.Pos()), "failure returns the zero TrustedResourceURL", "a path that bypasses the checked construction returns a non-zero TrustedResourceURL")
+			r.Check(zeroResultAt(ret, 0), "C13.R1", fmt.Sprintf("%s#failure-return%d", b.cn, i), p.Pos(ret.Pos()), "failure returns the zero TrustedResourceURL", "a path that bypasses the checked construction returns a non-zero TrustedResourceURL")
 		}
 		if b.fn == formatter {
 			fmtSite, fmtSumm, fmtRet = site, s, site.Store.Val
@@ -273,7 +278,7 @@ func runC13(p *Program, r *Report) {
 			r.Viol("C13.R4", c, fmtSite.Pos, "no guard on the assembled URL dominates the nil-error construction, so arguments can combine (\".\" + \".\") into a \"..\" segment; guards: "+fmtSite.Cond.String(), `format "https://h/x/%{a}%{b}/y" with a=".", b="."`)
 		} else {
 			L := NewLang()
-			L.Props = map[string]bool{"nil(err)": true}
+			L.Props = map[string]bool{substErrProp(formatter): true}
 			if err := registerSumm(L, fmtSumm, fmtSite.Cond); err != nil {
 				r.Undec("C13.R4", c, fmtSite.Pos, err.Error())
 			} else {
@@ -295,7 +300,7 @@ func runC13(p *Program, r *Report) {
 		{
 			c := fcn + "#path-format-stays-path"
 			L := NewLang()
-			L.Props = map[string]bool{"nil(err)": true}
+			L.Props = map[string]bool{substErrProp(formatter): true}
 			if err := registerSumm(L, fmtSumm, fmtSite.Cond); err != nil {
 				r.Undec("C13.R7", c, fmtSite.Pos, err.Error())
 			} else {
@@ -330,10 +335,8 @@ func runC13(p *Program, r *Report) {
 		okErr := false
 		for _, ret := range Returns(formatter) {
 			if fmtSite.Store.Block().Dominates(ret.Block()) {
-				if u, ok := ret.Results[1].(*ssa.UnOp); ok && u.Op == token.MUL {
-					if al, ok := u.X.(*ssa.Alloc); ok && al.Comment == "err" {
-						okErr = true
-					}
+				if cells := substitutionCells(formatter); cells != nil && cells.isErrLoad(ret.Results[1]) {
+					okErr = true
 				}
 			}
 		}
@@ -369,29 +372,17 @@ func checkFormatSubstitution(p *Program, r *Report, pv *Prov, regs map[string]*R
 			r.Viol("C13.R2", fcn+"#marker-pattern", p.Pos(rc.Pos), "marker language differs from %{label}", w)
 		}
 	}
-	mc, ok := call.Common().Args[2].(*ssa.MakeClosure)
-	if !ok {
-		r.Undec("C13.R2", fcn+"#closure", pos, "replacement function is not a closure literal")
+	if _, ok := call.Common().Args[2].(*ssa.MakeClosure); !ok {
+		r.Undec("C13.R2", fcn+"#closure", pos, "replacement function is not a closure literal or a bound method")
 		return
 	}
-	cl := mc.Fn.(*ssa.Function)
-	// free variables: args map and err
-	var fvArgs, fvErr *ssa.FreeVar
-	for i, fv := range cl.FreeVars {
-		b := mc.Bindings[i]
-		if al, ok := b.(*ssa.Alloc); ok {
-			if st := singleStoreLoose(al); st != nil && st.Val == ssa.Value(formatter.Params[1]) {
-				fvArgs = fv
-			} else if al.Comment == "err" {
-				fvErr = fv
-			}
-		}
-	}
-	if fvArgs == nil || fvErr == nil {
-		r.Undec("C13.R2", fcn+"#closure", pos, "closure does not capture the argument map and the error variable")
+	cells := substitutionCells(formatter)
+	if cells == nil {
+		r.Undec("C13.R2", fcn+"#closure", pos, "the replacement function does not reach the argument map and an error variable of the formatter (captured variables, or fields of the struct it is bound to)")
 		return
 	}
-	match := ssa.Value(cl.Params[0])
+	cl := cells.cl
+	match := cells.match
 	for i, ret := range Returns(cl) {
 		c := fmt.Sprintf("%s$closure#return%d", fcn, i)
 		rpos := p.Pos(ret.Pos())
@@ -401,7 +392,7 @@ func checkFormatSubstitution(p *Program, r *Report, pv *Prov, regs map[string]*R
 			errSet := false
 			for _, b := range cl.Blocks {
 				for _, in := range b.Instrs {
-					if st, ok := in.(*ssa.Store); ok && st.Addr == ssa.Value(fvErr) {
+					if st, ok := in.(*ssa.Store); ok && cells.isErr(st.Addr) {
 						if _, isErrorf := isCallTo(st.Val, "fmt.Errorf"); isErrorf {
 							// the store's block, or its if-join, dominates the return
 							if b.Dominates(ret.Block()) {
@@ -412,7 +403,7 @@ func checkFormatSubstitution(p *Program, r *Report, pv *Prov, regs map[string]*R
 									// store guarded by err == nil, join is the return block: err non-nil either way
 									for _, g := range GuardsOf(b) {
 										if bo, ok := g.Cond.(*ssa.BinOp); ok && g.Pol && bo.Op == token.EQL {
-											if u, ok := bo.X.(*ssa.UnOp); ok && u.X == ssa.Value(fvErr) {
+											if u, ok := bo.X.(*ssa.UnOp); ok && cells.isErr(u.X) {
 												errSet = true
 											}
 										}
@@ -438,7 +429,7 @@ func checkFormatSubstitution(p *Program, r *Report, pv *Prov, regs map[string]*R
 			lookup, _ = ex.Tuple.(*ssa.Lookup)
 		}
 		if lookup != nil && lookup.CommaOk {
-			if u, ok := lookup.X.(*ssa.UnOp); ok && u.X == ssa.Value(fvArgs) {
+			if u, ok := lookup.X.(*ssa.UnOp); ok && cells.isArgs(u.X) {
 				if sl, ok := lookup.Index.(*ssa.Slice); ok && sl.X == match {
 					lo, okLo := constIntExpr(sl.Low)
 					hiOK := false
@@ -703,4 +694,144 @@ func assumeOnTerm(L *Lang, f *Form, key int, S *relang.DFA) *Form {
 		return &Form{Op: f.Op, Sub: subs, Atom: f.Atom, Why: f.Why, In: f.In}
 	}
 	return f
+}
+
+// substCells: how the replacement function handed to ReplaceAllStringFunc reaches the two pieces of state it shares
+// with the formatter — the argument map and the error it records — whether they are variables captured by a
+// function literal or fields of a struct whose method is passed as a bound method value.
+type substCells struct {
+	cl        *ssa.Function // the body that computes the replacement
+	match     ssa.Value     // its parameter: the marker
+	isArgs    func(addr ssa.Value) bool
+	isErr     func(addr ssa.Value) bool
+	errProp   string                 // the name of the proposition "the recorded error is nil" in the formatter
+	isErrLoad func(v ssa.Value) bool // v, in the formatter, reads the recorded error
+}
+
+var substCellsCache = map[*ssa.Function]*substCells{}
+
+func substErrProp(formatter *ssa.Function) string {
+	if c := substitutionCells(formatter); c != nil {
+		return c.errProp
+	}
+	return "nil(err)"
+}
+
+func substitutionCells(formatter *ssa.Function) *substCells {
+	if c, ok := substCellsCache[formatter]; ok {
+		return c
+	}
+	substCellsCache[formatter] = nil
+	var mc *ssa.MakeClosure
+	for _, b := range formatter.Blocks {
+		for _, in := range b.Instrs {
+			if c, ok := in.(*ssa.Call); ok {
+				if g := staticCallee(c.Common()); g != nil && fnName(g) == "(*regexp.Regexp).ReplaceAllStringFunc" && len(c.Common().Args) == 3 {
+					if m, ok := c.Common().Args[2].(*ssa.MakeClosure); ok {
+						if mc != nil {
+							return nil
+						}
+						mc = m
+					}
+				}
+			}
+		}
+	}
+	if mc == nil {
+		return nil
+	}
+	isErrPtr := func(t types.Type) bool {
+		pt, ok := t.Underlying().(*types.Pointer)
+		return ok && isErrorType(pt.Elem())
+	}
+	cl := mc.Fn.(*ssa.Function)
+	if strings.HasPrefix(cl.Synthetic, "bound method wrapper") && len(mc.Bindings) == 1 {
+		// method value: the state lives in the fields of the receiver
+		var method *ssa.Function
+		for _, b := range cl.Blocks {
+			for _, in := range b.Instrs {
+				if c, ok := in.(*ssa.Call); ok {
+					method = staticCallee(c.Common())
+				}
+			}
+		}
+		recvAlloc, ok := mc.Bindings[0].(*ssa.Alloc)
+		if method == nil || method.Blocks == nil || len(method.Params) != 2 || !ok {
+			return nil
+		}
+		st, ok := recvAlloc.Type().Underlying().(*types.Pointer).Elem().Underlying().(*types.Struct)
+		if !ok {
+			return nil
+		}
+		argsField, errField := -1, -1
+		for i := 0; i < st.NumFields(); i++ {
+			if isErrorType(st.Field(i).Type()) {
+				if errField >= 0 {
+					return nil
+				}
+				errField = i
+			}
+		}
+		for _, ref := range *recvAlloc.Referrers() {
+			if fa, ok := ref.(*ssa.FieldAddr); ok {
+				for _, r2 := range *fa.Referrers() {
+					if s2, ok := r2.(*ssa.Store); ok && s2.Addr == ssa.Value(fa) && s2.Val == ssa.Value(formatter.Params[1]) {
+						argsField = fa.Field
+					}
+				}
+			}
+		}
+		if argsField < 0 || errField < 0 {
+			return nil
+		}
+		recv := ssa.Value(method.Params[0])
+		fieldOfRecv := func(addr ssa.Value, field int) bool {
+			fa, ok := addr.(*ssa.FieldAddr)
+			return ok && fa.X == recv && fa.Field == field
+		}
+		c := &substCells{cl: method, match: method.Params[1],
+			isArgs:  func(a ssa.Value) bool { return fieldOfRecv(a, argsField) },
+			isErr:   func(a ssa.Value) bool { return fieldOfRecv(a, errField) },
+			errProp: "nil(" + recvAlloc.Comment + "." + st.Field(errField).Name() + ")",
+			isErrLoad: func(v ssa.Value) bool {
+				u, ok := v.(*ssa.UnOp)
+				if !ok || u.Op != token.MUL {
+					return false
+				}
+				fa, ok := u.X.(*ssa.FieldAddr)
+				return ok && fa.X == ssa.Value(recvAlloc) && fa.Field == errField
+			}}
+		substCellsCache[formatter] = c
+		return c
+	}
+	if len(cl.Params) != 1 {
+		return nil
+	}
+	var fvArgs, fvErr *ssa.FreeVar
+	var errAlloc *ssa.Alloc
+	for i, fv := range cl.FreeVars {
+		if al, ok := mc.Bindings[i].(*ssa.Alloc); ok {
+			if st := singleStoreLoose(al); st != nil && st.Val == ssa.Value(formatter.Params[1]) {
+				fvArgs = fv
+			} else if isErrPtr(al.Type()) {
+				if fvErr != nil {
+					return nil
+				}
+				fvErr, errAlloc = fv, al
+			}
+		}
+	}
+	if fvArgs == nil || fvErr == nil {
+		return nil
+	}
+	c := &substCells{cl: cl, match: cl.Params[0],
+		isArgs:  func(a ssa.Value) bool { return a == ssa.Value(fvArgs) },
+		isErr:   func(a ssa.Value) bool { return a == ssa.Value(fvErr) },
+		errProp: "nil(" + errAlloc.Comment + ")",
+		isErrLoad: func(v ssa.Value) bool {
+			u, ok := v.(*ssa.UnOp)
+			return ok && u.Op == token.MUL && u.X == ssa.Value(errAlloc)
+		}}
+	substCellsCache[formatter] = c
+	return c
 }
